@@ -893,6 +893,15 @@ func init() {
 		},
 		// sync.Pool: Get always builds a fresh object with New; Put drops it
 		"(*sync.Pool).Get": func(fr *frame, a []value) value {
+			// items put back are handed out again, last in first out (what a single
+			// P does natively between collections); an empty pool calls New
+			addr := a[0].(*value)
+			if items := fr.i.pools[addr]; len(items) > 0 {
+				fr.i.acquire(addr)
+				it := items[len(items)-1]
+				fr.i.pools[addr] = items[:len(items)-1]
+				return it
+			}
 			pool := (*a[0].(*value)).(structure)
 			newFn := pool[len(pool)-1]
 			if f, ok := newFn.(*ssa.Function); ok && f == nil {
@@ -900,7 +909,18 @@ func init() {
 			}
 			return call(fr.i, fr, token.NoPos, newFn, nil)
 		},
-		"(*sync.Pool).Put": func(fr *frame, a []value) value { return nil },
+		"(*sync.Pool).Put": func(fr *frame, a []value) value {
+			addr := a[0].(*value)
+			if it, ok := a[1].(iface); ok && it.t == nil {
+				return nil
+			}
+			if fr.i.pools == nil {
+				fr.i.pools = map[*value][]value{}
+			}
+			fr.i.pools[addr] = append(fr.i.pools[addr], a[1])
+			fr.i.release(addr)
+			return nil
+		},
 		// gin renders JSON bodies through encoding/json + reflection; the body is
 		// irrelevant to C16, so: render.WriteJSON(w, obj) writes "{}" to w.
 		"github.com/gin-gonic/gin/render.WriteJSON": func(fr *frame, a []value) value {
